@@ -82,8 +82,21 @@ def dt_decode(x):
     return ticks, code
 
 
-def fs_state(sandbox: Path, tempd: Path, out_mode: str, foreign):
-    """Abstract file-system state over the six model names."""
+def filemap_for(outname="out.h5"):
+    """relative path -> model name for the candidate names of a requested output path: the documented
+    rule is <stem>[-n]<ext> for n = 1, 2, ... next to the requested file, each with a .tmp companion."""
+    stem, ext = os.path.splitext(outname)
+    m = {}
+    for sidx in range(4):
+        o = outname if sidx == 0 else f"{stem}-{sidx}{ext}"
+        m[os.path.normpath(o)] = f"o{sidx}"
+        m[os.path.normpath(o + ".tmp")] = f"t{sidx}"
+    return m
+
+
+def fs_state(sandbox: Path, tempd: Path, out_mode: str, foreign, filemap=None):
+    """Abstract file-system state over the model names."""
+    filemap = FILEMAP if filemap is None else filemap
     st = {n: "absent" for n in NAMES}
     openfds = set()
     for fd in os.listdir("/proc/self/fd"):
@@ -93,12 +106,12 @@ def fs_state(sandbox: Path, tempd: Path, out_mode: str, foreign):
             pass
     unexpected = []
     if out_mode == "path":
-        for p in sandbox.iterdir():
-            if p == tempd:
-                continue
-            n = FILEMAP.get(p.name)
+        files = [p for p in sandbox.rglob("*") if p.is_file() and tempd not in p.parents]
+        for p in files:
+            rel = os.path.normpath(str(p.relative_to(sandbox)))
+            n = filemap.get(rel)
             if n is None:
-                unexpected.append(p.name)
+                unexpected.append(rel)
                 continue
             if n in foreign:
                 st[n] = "foreign" if p.read_bytes() == FOREIGN_BYTES else "modified"
@@ -249,7 +262,8 @@ def abstract_time(t, dts_by_code):
 class Script:
     """Environment choices of one TdglRun behaviour."""
 
-    def __init__(self, cfg, tdts, simdts, flog, probes=0, screening=False, progress=0, prior=None, fault_shape=0):
+    def __init__(self, cfg, tdts, simdts, flog, probes=0, screening=False, progress=0, prior=None, fault_shape=0,
+                 outname="out.h5"):
         self.cfg = cfg
         self.tdts = list(tdts)
         self.simdts = list(simdts)
@@ -261,15 +275,17 @@ class Script:
         # os.remove before this run starts (dict(k, solveT, simdts)); state must not leak between runs
         self.prior = prior
         self.fault_shape = fault_shape
+        # the requested output path (relative to the run's working directory, or "ABS:<rel>" for an absolute path)
+        self.outname = outname
 
     def key(self):
         return (tuple(sorted((k, str(v)) for k, v in self.cfg.items())), tuple(self.tdts), tuple(self.simdts),
                 tuple(tuple(sorted(f.items())) for f in self.flog), self.probes, self.screening, self.progress,
-                json.dumps(self.prior, sort_keys=True), self.fault_shape)
+                json.dumps(self.prior, sort_keys=True), self.fault_shape, self.outname)
 
     def to_json(self):
         return {"cfg": self.cfg, "tdts": self.tdts, "simdts": self.simdts, "flog": self.flog,
-                "probes": self.probes, "screening": self.screening, "progress": self.progress, "prior": self.prior, "fault_shape": self.fault_shape}
+                "probes": self.probes, "screening": self.screening, "progress": self.progress, "prior": self.prior, "fault_shape": self.fault_shape, "outname": self.outname}
 
 
 class _FaultyDict(dict):
@@ -290,6 +306,11 @@ class _FaultyDict(dict):
 
 class Boom(RuntimeError):
     pass
+
+
+class _Hang(BaseException):
+    """raised by the alarm of the hang guard (BaseException: the code under test catches OSError, of which
+    TimeoutError is a subclass, in its file-name search loop)"""
 
 
 class _WeirdError(Exception):
@@ -338,8 +359,12 @@ def _replay(tdgl, script, base_tmp=None, sandbox=None, keep=False):
         sandbox = Path(tempfile.mkdtemp(prefix="sbx", dir=base_tmp))
     tempd = sandbox / "tmpd"
     tempd.mkdir(exist_ok=True)
+    outrel = script.outname[4:] if script.outname.startswith("ABS:") else script.outname
+    fmap = filemap_for(outrel)
+    requested = str(sandbox / outrel) if script.outname.startswith("ABS:") else outrel
     for n in foreign:
-        fname = [f for f, m in FILEMAP.items() if m == n][0]
+        fname = [f for f, m in fmap.items() if m == n][0]
+        (sandbox / fname).parent.mkdir(parents=True, exist_ok=True)
         (sandbox / fname).write_bytes(FOREIGN_BYTES)
     events = []
     trace = {"cfg": {"k": k, "solveT": cfg["solveT"], "skipT": cfg["skipT"], "out": cfg["out"],
@@ -348,7 +373,7 @@ def _replay(tdgl, script, base_tmp=None, sandbox=None, keep=False):
     opts = tdgl.SolverOptions(
         solve_time=cfg["solveT"] * TICK, skip_time=cfg["skipT"] * TICK, dt_init=TICK, dt_max=10.0,
         adaptive=True, save_every=k, progress_interval=script.progress, pause_on_interrupt=False,
-        output_file=("out.h5" if cfg["out"] == "path" else None), include_screening=script.screening,
+        output_file=(requested if cfg["out"] == "path" else None), include_screening=script.screening,
         field_units="mT", current_units="uA",
     )
     st = {"n": 0, "thermal_n": 0, "sim_n": 0, "applied": 0, "saves": 0, "in_sim": cfg["skipT"] == 0, "injected": []}
@@ -430,12 +455,18 @@ def _replay(tdgl, script, base_tmp=None, sandbox=None, keep=False):
         try:
             r = orig_enter(self)
         except BaseException as e:
-            events.append({"ev": "open", "serial": BOT, "fs": fs_state(sandbox, tempd, cfg["out"], foreign),
+            events.append({"ev": "open", "serial": BOT, "fs": fs_state(sandbox, tempd, cfg["out"], foreign, fmap),
                            "exc": type(e).__name__})
             raise
-        name = os.path.basename(self.output_path or "")
-        serial = {"out.h5": 0, "out-1.h5": 1, "out-2.h5": 2, "out-3.h5": 3, "output.h5": 0}.get(name, BOT)
-        events.append({"ev": "open", "serial": serial, "fs": fs_state(sandbox, tempd, cfg["out"], foreign)})
+        if cfg["out"] == "path":
+            try:
+                rel = os.path.normpath(os.path.relpath(os.path.abspath(self.output_path or ""), sandbox))
+            except ValueError:
+                rel = "?"
+            serial = {v: int(v[1]) for v in fmap.values()}.get(fmap.get(rel, "?"), BOT) if fmap.get(rel, "?").startswith("o") else BOT
+        else:
+            serial = 0 if os.path.basename(self.output_path or "") == "output.h5" else BOT
+        events.append({"ev": "open", "serial": serial, "fs": fs_state(sandbox, tempd, cfg["out"], foreign, fmap)})
         return r
 
     def w_save(self, state, data, running_state):
@@ -474,7 +505,7 @@ def _replay(tdgl, script, base_tmp=None, sandbox=None, keep=False):
         try:
             return orig_exit(self, et, ev_, tb)
         finally:
-            events.append({"ev": "close", "fs": fs_state(sandbox, tempd, cfg["out"], foreign), "frames": frames})
+            events.append({"ev": "close", "fs": fs_state(sandbox, tempd, cfg["out"], foreign, fmap), "frames": frames})
 
     cwd = os.getcwd()
     old_tempdir = tempfile.tempdir
@@ -484,11 +515,20 @@ def _replay(tdgl, script, base_tmp=None, sandbox=None, keep=False):
         os.chdir(sandbox)
         tempfile.tempdir = str(tempd)
         DH.__enter__, DH.__exit__, DH.save_time_step = w_enter, w_exit, w_save
+        import signal
+
+        def _on_alarm(signum, frame):
+            raise _Hang()
+        old_handler = signal.signal(signal.SIGALRM, _on_alarm)
+        signal.alarm(int(os.environ.get("VERIF_HANG_S", "120")))
         try:
             solver = TDGLSolver(device, opts)
             solver.update = scripted_update
             sol = solver.solve()
             result = "none" if sol is None else "solution"
+        except _Hang:
+            # the call did not return: no action of the specification matches this result
+            result, exc_name = "hang", "no return within the time limit (run loop or file-name search does not terminate)"
         except KeyboardInterrupt:
             result, exc_name = "raised", "KeyboardInterrupt"
         except Exception as e:
@@ -498,6 +538,8 @@ def _replay(tdgl, script, base_tmp=None, sandbox=None, keep=False):
                 # the error that reached the caller is not the one that stopped the run: "the error propagates"
                 result = "raised-other"
         finally:
+            signal.alarm(0)
+            signal.signal(signal.SIGALRM, old_handler)
             DH.__enter__, DH.__exit__, DH.save_time_step = orig_enter, orig_exit, orig_save
         if sol is not None:
             try:
@@ -523,16 +565,16 @@ def _replay(tdgl, script, base_tmp=None, sandbox=None, keep=False):
             except Exception as e:
                 result, exc_name = "raised", "on-load " + type(e).__name__ + ": " + str(e)[:200]
         ret = {"ev": "return", "result": result, "exc": exc_name, "ltimes": ltimes, "luids": luids,
-               "range": drange, "fs": fs_state(sandbox, tempd, cfg["out"], foreign)}
+               "range": drange, "fs": fs_state(sandbox, tempd, cfg["out"], foreign, fmap)}
         # independent re-read of the closed output file
         if cfg["out"] == "path":
-            closed = [f for f, m in FILEMAP.items() if m.startswith("o") and ret["fs"].get(m) == "closed"]
+            closed = [f for f, m in fmap.items() if m.startswith("o") and ret["fs"].get(m) == "closed"]
             ret["reread"] = {}
             for fn in closed:
                 try:
-                    ret["reread"][FILEMAP[fn]] = read_frames(str(sandbox / fn), k, dts_by_code)
+                    ret["reread"][fmap[fn]] = read_frames(str(sandbox / fn), k, dts_by_code)
                 except Exception as e:
-                    ret["reread"][FILEMAP[fn]] = "unreadable: " + repr(e)[:100]
+                    ret["reread"][fmap[fn]] = "unreadable: " + repr(e)[:100]
         events.append(ret)
     finally:
         tempfile.tempdir = old_tempdir
